@@ -772,6 +772,49 @@ def step (line impl : String) : String × Verdict :=
   | [op, l, r, o, i, a, j, b] =>
     match W.find l, W.find r, W.find o, i.toNat?, C.parse a, j.toNat?, C.parse b with
     | some TL, some TR, some TO, some i, some a, some j, some b =>
+      if op == "dmd" || op == "ddm" then
+        -- two-step chain: `dmd L R Q` = (x * y) / y with `L*R -> Q`, `Q/R -> L`; `ddm` = (x / y) * y
+        if !(TL.kind == .withRef && TR.kind == .withRef && TO.kind == .withRef) then bad else
+        let isMul := op == "dmd"
+        let x : Q A Nat := ⟨a, i⟩
+        let y : Q A Nat := ⟨b, j⟩
+        let step1 (u : Q A Nat) : Res (Q A Nat) :=
+          if isMul then dmul R (TL.qt R) (TR.qt R) (TO.qt R) u y else ddiv R (TL.qt R) (TR.qt R) (TO.qt R) u y
+        let step2 (p : Q A Nat) : Res (Q A Nat) :=
+          if isMul then ddiv R (TO.qt R) (TR.qt R) (TL.qt R) p y else dmul R (TO.qt R) (TR.qt R) (TL.qt R) p y
+        let r1 := step1 x
+        let out := match r1 with
+          | .ok p => qStr C p ++ "|" ++ resStr (qStr C) (step2 p)
+          | .error _ => resStr (qStr C) r1 ++ "|-"
+        let v : Verdict :=
+          match impl.splitOn "|" with
+          | [i1, i2] =>
+            match parseQ C i1, parseQ C i2 with
+            | some (w1, z1), some (w2, z2) =>
+              if w1 ≥ TO.n then .fail "intermediate unit is not a unit of the result quantity"
+              else if w2 ≥ TL.n then .fail "final unit is not a unit of the original quantity" else
+              let opQ (fwd : Bool) (p q : Rat) : Rat := if fwd then p * q else p / q
+              let av := R.val a
+              let bv := R.val b
+              let sa := R.val (TL.scaleOf R i)
+              let sb := R.val (TR.scaleOf R j)
+              let sw1 := R.val (TO.scaleOf R w1)
+              let sw2 := R.val (TL.scaleOf R w2)
+              let zv1 := R.val z1
+              let nz (q : Option Rat) : Option Rat := q.bind (fun q => if q == 0 then none else some q)
+              let pa1 : Option Rat := do pure (opQ isMul (← av) (← (if isMul then bv else nz bv)))
+              let ps1 : Option Rat := do pure (opQ isMul (← sa) (← (if isMul then sb else nz sb)))
+              let pa2 : Option Rat := do pure (opQ (!isMul) (← zv1) (← (if isMul then nz bv else bv)))
+              let ps2 : Option Rat := do pure (opQ (!isMul) (← sw1) (← (if isMul then nz sb else sb)))
+              let m0 : Option Rat := do pure ((← av) * (← sa))
+              let bs : Option Rat := do pure ((← bv) * (← sb))
+              ((Oracle.c04 M pa1 ps1 sw1 zv1).and (Oracle.c04 M pa2 ps2 sw2 (R.val z2))).and
+                (Oracle.c04rt M isMul m0 pa1 ps1 sw1 bs pa2 ps2 sw2 (R.val z2))
+            | _, _ => if impl.startsWith "panic:" || (impl.splitOn "|").any (·.startsWith "panic:") then .skip "panic"
+                      else .skip "unparsed impl output"
+          | _ => .skip "unparsed impl output"
+        (out, v)
+      else
       if !(op == "dmul" || op == "ddiv" || op == "dmulu" || op == "ddivu") then bad else
       -- `dmul`/`ddiv`: oracle of C04 (magnitude); `dmulu`/`ddivu`: oracle of C05 (choice of the unit)
       let unitOracle := op == "dmulu" || op == "ddivu"
